@@ -245,6 +245,22 @@ Section RpcProofs.
     reflexivity.
   Qed.
 
+  (* with in-process functions that do not change the state when they raise, EVERY request that
+     raises is isolated *)
+  Corollary raising_request_isolated : raise_pure W -> forall ps pre r post c m,
+    benign W ps (pre ++ r :: post) ->
+    fst (api W (inproc_state W ps pre) r) = Raise c m ->
+    let without := fst (run_calls W (init W ps) (pre ++ post)) in
+    fst (run_calls W (init W ps) (pre ++ r :: post)) =
+      firstn (length pre) without ++ expected W (Raise c m) :: skipn (length pre) without.
+  Proof.
+    intros Hpure ps pre r post c m Hb Hr without.
+    assert (Hs : snd (api W (inproc_state W ps pre) r) = inproc_state W ps pre).
+    { destruct (api W (inproc_state W ps pre) r) as [o ps'] eqn:Ha. simpl in *. subst o.
+      exact (Hpure _ _ _ _ _ Ha). }
+    unfold without. rewrite (failure_isolated ps pre r post Hb Hs), Hr. reflexivity.
+  Qed.
+
   (* ------------------------------------------------------------------ pipelined sends *)
   Lemma send_all_benign : forall rs ps0 (s : sysW), benign W ps0 rs ->
     exists bs, Forall2 (fun r b => dumps W (req_val W r) = Some b) rs bs /\
